@@ -288,6 +288,9 @@ def main():
     if a.crate == "kani":
         n = gen_dtypes()
         print("dtypes: %d definitions" % n)
+        sys.path.insert(0, os.path.dirname(os.path.abspath(__file__)))
+        import schemas
+        print("schemas:", schemas.emit())
 
 if __name__ == "__main__":
     main()
